@@ -23,10 +23,13 @@
       and SKIPS the later arithmetic sites.  The draw_to_term guards below ignore that (they are
       evaluated as if every call succeeded): a fault can only remove sites, never add one, so
       [None] here implies "no panic" under every fault oracle.  The STATES between the parts of
-      one call (which do depend on the oracle: last_line_count is only written after a successful
-      flush) are the ones [Sys.step] computes, with the oracle.
-    * Sites owned by other properties are not repeated here: RateLimiter::allow /
-      AtomicPosition::allow (C05), ProgressStyle::format_state and everything under it (C10, C13,
+      one call (which do depend on the oracle: `real_height + shift` is only written to
+      last_line_count after a successful flush; after a FAILED draw the count is the old one
+      capped at the height, [N.min (tt_n t) H] in [Sys.term_draw], because the cap of :527-529
+      runs before the first fallible call) are the ones [Sys.step] computes, with the oracle.
+    * Sites owned by other properties are not repeated here: RateLimiter::{new, allow} /
+      AtomicPosition::allow (model coq/model/Limiter.v with its four panic outcomes, theorem
+      C05_no_panic; line by line in docs/C18.md), ProgressStyle::format_state and everything under it (C10, C13,
       C14, C16), the estimator (C09).  Lock poisoning (`.lock().unwrap()`, `.write().unwrap()`)
       needs an earlier panic while the lock is held; `assert!(Arc::ptr_eq(..))` of
       MultiProgress::remove (src/multi.rs:158) needs a second MultiProgress (the model has one). *)
